@@ -1070,15 +1070,6 @@ func applyMutations(tbl *table, r *btpb.Row, muts []*btpb.Mutation, now bigtable
 			if _, ok := fs[del.FamilyName]; !ok {
 				return fmt.Errorf("unknown family %q", del.FamilyName)
 			}
-			fam := getFamily(r, del.FamilyName)
-			if fam == nil {
-				break
-			}
-			col := getColumn(fam, del.ColumnQualifier)
-			if col == nil {
-				break
-			}
-			cs := col.Cells
 			if del.TimeRange != nil {
 				tsr := del.TimeRange
 				if !tbl.validTimestamp(tsr.StartTimestampMicros) {
@@ -1090,6 +1081,18 @@ func applyMutations(tbl *table, r *btpb.Row, muts []*btpb.Mutation, now bigtable
 				if tsr.StartTimestampMicros >= tsr.EndTimestampMicros && tsr.EndTimestampMicros != 0 {
 					return fmt.Errorf("inverted or invalid timestamp range [%d, %d]", tsr.StartTimestampMicros, tsr.EndTimestampMicros)
 				}
+			}
+			fam := getFamily(r, del.FamilyName)
+			if fam == nil {
+				break
+			}
+			col := getColumn(fam, del.ColumnQualifier)
+			if col == nil {
+				break
+			}
+			cs := col.Cells
+			if del.TimeRange != nil {
+				tsr := del.TimeRange
 
 				// Find half-open interval to remove.
 				// Cells are in descending timestamp order,
